@@ -28,7 +28,7 @@ from vplib import Case
 PROP = "C17"
 LEVEL = "proof"
 IMPORTS = ["Core.Prog", "Human.Namer", "Human.Render", "Human.Resolve", "Human.Run"]
-CRATE = "harness_human"
+CRATE = None  # merged into the main harness crate
 CORPUS = os.path.join(vplib.VERIF, "corpus", "C17")
 
 PREFIXES = ["id", "ut", "jl", "jr", "dp", "tk", "cp", "cs", "asstl", "asstr", "pr", "disc", "wit", "FAIL", "jt", "const"]
